@@ -543,7 +543,7 @@ fn run(ctx: &Ctx, report: &mut Report) {
                 if nontrivial && h.len() >= 4 {
                     report.sample(|| json!({"history": h.iter().map(|r| format!("{r:?}")).collect::<Vec<_>>(), "last_reply": observed}));
                 }
-                Some(BfsOutcome { key, observed })
+                Some(BfsOutcome { key, observed, enabled: None })
             }
         }
     });
